@@ -1084,6 +1084,10 @@ class Checker:
     def on_note(self, ev):
         if ev.get("what") == "instance-isolation":
             self.rej("C12.instance-isolation", ev.get("detail"))
+        if ev.get("what") == "other-definition":
+            self.stats["other_definitions"] = self.stats.get("other_definitions", 0) + 1
+        if ev.get("what") == "poke":
+            self.stats["pokes"] = self.stats.get("pokes", 0) + 1
         if ev.get("what") == "other-activity":
             self.stats["other_instance_callbacks"] = self.stats.get("other_instance_callbacks", 0) + ev.get("callbacks", 0)
             self.stats["other_instance_steps"] = self.stats.get("other_instance_steps", 0) + 1
